@@ -1193,16 +1193,16 @@ def program(draw, cfg=None, ret=None, name="f", args=None, fns=None, params=()):
         g.pyint.discard(n2)
         return ["unpack", [n1, n2], ["tup", [e1, e2]]]
 
-    def simple(depth):
+    def simple(depth, target=None):
         """assignment / aug-assignment to an existing scalar variable"""
         sc = scalars()
         if not sc:
             return None
-        if cfg.use_tuple and len(sc) >= 2 and g.chance(12):
+        if target is None and cfg.use_tuple and len(sc) >= 2 and g.chance(12):
             m_ = multi(depth)
             if m_:
                 return m_
-        nm = g.pick(sc)
+        nm = target if target in sc else g.pick(sc)
         t = env[nm]
         if g.chance(50):
             e = g.gen_bool(depth) if t == BOOL else g.gen_int(depth)
@@ -1229,9 +1229,15 @@ def program(draw, cfg=None, ret=None, name="f", args=None, fns=None, params=()):
         env[nm] = nt
         return st_
 
-    def branch(n):
+    def branch(n, lead=None):
         out = []
-        for _ in range(n):
+        if lead is not None:
+            # the branch first re-assigns the variable the if tests, then goes on
+            s_ = simple(max(1, d - 1), target=lead)
+            if s_:
+                out.append(s_)
+            n = max(n, 2)
+        for _ in range(n - len(out)):
             s_ = simple(max(1, d - 1))
             if s_:
                 out.append(s_)
@@ -1241,17 +1247,23 @@ def program(draw, cfg=None, ret=None, name="f", args=None, fns=None, params=()):
         if not scalars():
             return None
         c = g.gen_bool(max(1, d - 1))
+        lead = None
+        bare = [n_ for n_ in scalars() if env[n_] == BOOL and n_ not in g.pyint]
+        if bare and g.chance(20):
+            # the test is a plain variable, re-assigned by a branch
+            lead = g.pick(bare)
+            c = ["v", lead]
         if cval(c, env) is not NOC:
             return None
         before = dict(env)
-        b1 = branch(draw(st.integers(1, 2)))
+        b1 = branch(draw(st.integers(1, 2)), lead if lead and g.chance(70) else None)
         e1 = dict(env)
         env.clear()
         env.update(before)
         b2 = []
         r = draw(st.integers(0, 9))
         if r < 4:
-            b2 = branch(draw(st.integers(1, 2)))
+            b2 = branch(draw(st.integers(1, 2)), lead if lead and g.chance(40) else None)
         elif r < 6 and allow_elif:
             inner = gen_if(False)
             b2 = [inner] if inner else []
